@@ -231,7 +231,7 @@ struct World {
 };
 unsigned World::nsys = 0;
 
-struct Counters { uint64_t nontrivial, refused, limit, replaced, shared_op, destroyed, nonclonable, cleared, spurious, drained; };
+struct Counters { uint64_t nontrivial, refused, limit, replaced, shared_op, destroyed, nonclonable, cleared, spurious, drained, refused_shared, traits_mismatch; };
 static Counters C;   // only the last operation of a transition counts: the BFS restores the snapshot after replaying a prefix
 
 // ---------------------------------------------------------------- job configuration
@@ -246,26 +246,50 @@ struct Cfg {
 static Cfg cfg;
 
 // ================================================================= buffers and array handles
-enum { B_NEW, B_NEWHI, B_CLONE, B_CLEAR, B_CXXASSIGN, B_TINIT, B_TFINI, B_ADDREF, B_UNREFRAW, B_DETACH };
-static const char *bopn[] = { "new", "new(count=MAX-1)", "array_clone", "array_clone(NULL)", "array::operator=", "array_traits.init", "array_traits.fini", "buffer.addref", "buffer.unref", "buffer.detach" };
+enum { B_NEW, B_CLONE, B_CLEAR, B_CXXASSIGN, B_TINIT, B_TFINI, B_ADDREF, B_UNREFRAW, B_DETACH, B_SET, B_SLICE, B_INSERT, B_APPEND };
+static const char *bopn[] = { "new", "array_clone", "array_clone(NULL)", "array::operator=", "array_traits.init", "array_traits.fini", "buffer.addref", "buffer.unref", "buffer.detach",
+                              "array_set(1 element @0)", "array_slice(0,1 element)", "array_insert(0,1 element)", "array_append(1 element)" };
+// buffer content kinds: raw bytes, traits A (copy-init that can be made to fail + fini), traits B (different element size, fini only)
+enum { T_RAW, T_A, T_B };
+static const char *tkn[] = { "raw", "traitsA", "traitsB" };
+static bool g_init_fail = false;
+static int ta_init(void *p, const void *s) { if (g_init_fail) return mpt::BadOperation; if (s) memcpy(p, s, 8); else memset(p, 0, 8); return 0; }
+static void t_fini(void *) {}
+static const mpt::type_traits traitsA(8, t_fini, ta_init), traitsB(4, t_fini, 0);
+static const mpt::type_traits *tkt(int tk) { return tk == T_A ? &traitsA : (tk == T_B ? &traitsB : 0); }
+static size_t tkes(int tk) { return tk == T_B ? 4 : 8; }
+static const size_t SMALL = 16, LARGE = 96;   // LARGE does not fit the smallest allocation (64 data bytes): a copy into a minimal buffer fails
+static const char *szn[] = { "smaller-than-content", "content-size", "larger-than-capacity" };
 
 struct BufSys : World {
 	Arr sl[3]; int so[3]; int created;
-	BufSys(Run &run) : World(run), created(0) { namer = &BufSys::opname; for (int i = 0; i < 3; ++i) { sl[i]._buf = 0; so[i] = -1; } }
+	std::vector<int> tk;   // traits kind per object
+	BufSys(Run &run) : World(run), created(0) { namer = &BufSys::opname; for (int i = 0; i < 3; ++i) { sl[i]._buf = 0; so[i] = -1; } g_init_fail = false; }
 	int nops() const { return (int) cfg.ops.size(); }
-	static std::string opname(int i) { const OpDef &d = cfg.ops[i]; return fmt("%s(%d,%d)", bopn[d.code], d.a, d.b); }
+	static std::string opname(int i)
+	{
+		const OpDef &d = cfg.ops[i];
+		if (d.code == B_NEW) return fmt("new %s %s buffer%s -> handle %d", (d.b & 1) ? "large(96)" : "small(16)", tkn[d.b >> 1], d.c ? " (count=MAX-1)" : "", d.a);
+		if (d.code == B_DETACH) return fmt("buffer.detach(handle %d, %s%s)", d.a, szn[d.b], d.c ? ", element copy-init fails" : "");
+		return fmt("%s(%d,%d)", bopn[d.code], d.a, d.b);
+	}
+	mpt::buffer *bp(int o) const { return (mpt::buffer *) objs[o].ptr; }
 	bool enabled(int i) const
 	{
 		const OpDef &d = cfg.ops[i];
+		int o = so[d.a < 3 ? d.a : 0];
 		switch (d.code) {
-		case B_NEW: case B_NEWHI: return so[d.a] < 0 && created < cfg.cap;
-		case B_CLONE: case B_CXXASSIGN: return true;
-		case B_CLEAR: return true;
+		case B_NEW: return so[d.a] < 0 && created < cfg.cap;
+		case B_CLONE: case B_CXXASSIGN: case B_CLEAR: case B_TFINI: return true;
 		case B_TINIT: return so[d.a] < 0;
-		case B_TFINI: return true;
-		case B_ADDREF: return so[d.a] >= 0 && objs[so[d.a]].raw < cfg.rawcap;
+		case B_ADDREF: return o >= 0 && objs[o].raw < cfg.rawcap;
 		case B_UNREFRAW: return d.a < (int) objs.size() && !objs[d.a].dead && objs[d.a].raw > 0;
-		case B_DETACH: return so[d.a] >= 0 && (count(so[d.a]) == 1 || created < cfg.cap);
+		case B_DETACH: return o >= 0 && (count(o) == 1 || created < cfg.cap) && (!d.c || tk[o] == T_A);
+		case B_SET: return o >= 0 && (count(o) == 1 || created < cfg.cap) && tk[o] != T_RAW;
+		case B_SLICE: return o >= 0 && (count(o) == 1 || created < cfg.cap);
+		// growth only from the two initial content sizes: the state space stays finite
+		case B_INSERT: return o >= 0 && (count(o) == 1 || created < cfg.cap) && (bp(o)->_used == SMALL || bp(o)->_used == LARGE);
+		case B_APPEND: return o >= 0 && (count(o) == 1 || created < cfg.cap) && tk[o] == T_RAW && (bp(o)->_used == SMALL || bp(o)->_used == LARGE);
 		}
 		return false;
 	}
@@ -273,48 +297,81 @@ struct BufSys : World {
 	{
 		std::string s;
 		for (int i = 0; i < cfg.nslots; ++i) s += fmt("s%d=%d ", i, so[i]);
-		for (size_t o = 0; o < objs.size(); ++o) { if (objs[o].dead) s += fmt("o%zu:dead ", o); else s += fmt("o%zu:%s,raw%d,%s ", o, cstr(o).c_str(), objs[o].raw, objs[o].phantom ? "hi" : "n"); }
+		for (size_t o = 0; o < objs.size(); ++o) { if (objs[o].dead) s += fmt("o%zu:dead ", o); else s += fmt("o%zu:%s,raw%d,%s,%s,u%zu ", o, cstr(o).c_str(), objs[o].raw, objs[o].phantom ? "hi" : "n", tkn[tk[o]], (size_t) bp(o)->_used); }
 		s += fmt("created=%d", created);
 		return s;
 	}
-	int newobj(mpt::buffer *b)
+	int newobj(mpt::buffer *b, int kind)
 	{
-		const void *blk = find_block(b);
-		int o = add(K_BUF, b, blk);
+		int o = add(K_BUF, b, find_block(b));
+		tk.resize(objs.size(), T_RAW); tk[o] = kind;
 		++created;
 		return o;
 	}
 	std::string cls(int old, int nw) const
 	{
 		std::string s = old < 0 ? "held=none" : (count(old) > 1 ? "held=shared" : "held=unique");
-		s += nw < 0 ? ",new=none" : (nw == old ? ",new=same" : (can_addref(nw) ? ",new=other" : ",new=at-limit"));
+		s += nw < 0 ? ",new=none" : (nw == old ? ",new=same" : (old >= 0 && tk[old] != tk[nw] ? ",new=other-traits" : (can_addref(nw) ? ",new=other" : ",new=at-limit")));
 		return s;
 	}
 	bool slots_ok()
 	{
 		for (int i = 0; i < cfg.nslots; ++i) {
-			mpt::buffer *want = so[i] >= 0 ? (mpt::buffer *) objs[so[i]].ptr : 0;
+			mpt::buffer *want = so[i] >= 0 ? bp(so[i]) : 0;
 			if (sl[i]._buf != want) return fail("wrong-target", fmt("handle %d does not refer to %s after the operation", i, oname(so[i]).c_str()));
+		}
+		return true;
+	}
+	// liveness + "reported shared iff at least two references exist" + handle targets, after EVERY operation (refused ones included)
+	bool checkall()
+	{
+		if (!check()) return false;
+		for (size_t o = 0; o < objs.size(); ++o) if (!objs[o].dead) {
+			bool sh = (bp(o)->get_flags() & mpt::BufferShared) != 0;
+			if (sh != (count(o) > 1)) return fail("shared-flag", oname(o) + fmt(" is reported %s but the model holds ", sh ? "shared" : "unshared") + cstr(o) + " reference(s)");
+		}
+		return slots_ok();
+	}
+	// a library call may have replaced the buffer of handle s (copy-on-write or reallocation): bring the model in line with the outcome
+	bool after_write(int s, mpt::buffer *ob)
+	{
+		mpt::buffer *nb = sl[s]._buf;
+		int o = so[s];
+		if (nb == ob) return true;   // in place, or refused: no reference moved
+		if (!nb) return fail("wrong-target", "the handle lost its buffer");
+		if (count(o) == 1) {
+			const void *oldblk = objs[o].block;
+			objs[o].ptr = nb; objs[o].block = find_block(nb);
+			if (ledger_is_live(oldblk)) return fail("leak", "the old block of a moved (unshared) buffer is still allocated");
+		} else {
+			++C.shared_op; nontrivial = true;
+			release(o);
+			so[s] = newobj(nb, tk[o]);
+			if (!objs[so[s]].block) { r.incomplete("buffer block not found in the ledger"); return false; }
 		}
 		return true;
 	}
 	bool apply(int i)
 	{
+		static uint8_t data[128];
 		const OpDef &d = cfg.ops[i];
 		int s = d.a, t = d.b;
 		nontrivial = false;
 		hist.push_back(i);
 		r.hint(bopn[d.code]);
+		if (!data[1]) for (size_t k = 0; k < sizeof data; ++k) data[k] = (uint8_t) (k + 1);
 		switch (d.code) {
-		case B_NEW: case B_NEWHI: {
+		case B_NEW: {
 			sig = "buffer.new|none";
-			mpt::buffer *b = LIB(mpt::_mpt_buffer_alloc(16, 0));
-			if (!b) { r.incomplete("buffer allocation failed"); return false; }
-			memcpy(b + 1, "0123456789abcdef", 16); b->_used = 16;
-			int o = newobj(b);
+			int kind = t >> 1; size_t n = (t & 1) ? LARGE : SMALL;
+			mpt::buffer *b;
+			if (kind == T_RAW) { b = LIB(mpt::_mpt_buffer_alloc(n, 0)); if (b) { memcpy(b + 1, data, n); b->_used = n; } }
+			else { Arr a; a._buf = 0; LIB(mpt::mpt_array_set(A(&a), tkt(kind), n, data, 0)); b = a._buf; }
+			if (!b || b->_used != n) { r.incomplete("buffer creation failed"); return false; }
+			int o = newobj(b, kind);
 			if (!objs[o].block) { r.incomplete("buffer block not found in the ledger"); return false; }
 			sl[s]._buf = b; so[s] = o;
-			if (d.code == B_NEWHI) preset_high(o);
+			if (d.c) preset_high(o);
 			break; }
 		case B_CLONE: case B_CXXASSIGN: {
 			int old = so[s], nw = so[t];
@@ -334,10 +391,11 @@ struct BufSys : World {
 				int ret = LIB(mpt::mpt_array_clone(A(&sl[s]), A(&sl[t])));
 				int want;
 				if (nw == old) want = 0;
+				else if (nw >= 0 && old >= 0 && tk[nw] != tk[old]) { want = mpt::BadType; ++C.refused; ++C.traits_mismatch; nontrivial = true; }   // documented: content type mismatch, nothing changes
 				else if (nw >= 0 && !can_addref(nw)) { want = mpt::BadOperation; ++C.limit; ++C.refused; nontrivial = true; }
 				else { if (nw >= 0) retain(nw); so[s] = nw; if (old >= 0) { release(old); ++C.replaced; } want = old >= 0 ? (nw >= 0 ? 3 : 2) : (nw >= 0 ? 1 : 0); }
-				if (!check() || !slots_ok()) return false;
-				if (want < 0 ? ret >= 0 : ret != want) return fail(want < 0 ? "accepted-at-limit" : "wrong-return", fmt("returned %d, documented result is %d", ret, want));
+				if (!checkall()) return false;
+				if (want < 0 ? ret >= 0 : ret != want) return fail(want < 0 ? "accepted-refusable" : "wrong-return", fmt("returned %d, documented result is %d", ret, want));
 			}
 			break; }
 		case B_CLEAR: {
@@ -346,7 +404,7 @@ struct BufSys : World {
 			if (old >= 0 && count(old) > 1) ++C.shared_op, nontrivial = true;
 			int ret = LIB(mpt::mpt_array_clone(A(&sl[s]), 0));
 			if (old >= 0) { release(old); so[s] = -1; }
-			if (!check() || !slots_ok()) return false;
+			if (!checkall()) return false;
 			if (ret != (old >= 0 ? 2 : 0)) return fail("wrong-return", fmt("returned %d, documented result is %d", ret, old >= 0 ? 2 : 0));
 			break; }
 		case B_TINIT: {
@@ -369,7 +427,7 @@ struct BufSys : World {
 			int o = so[s];
 			sig = std::string("buffer.addref|") + (can_addref(o) ? (count(o) > 1 ? "shared" : "unique") : "at-limit");
 			uintptr_t before = *counter(o);
-			uintptr_t ret = LIB(((mpt::buffer *) objs[o].ptr)->addref());
+			uintptr_t ret = LIB(bp(o)->addref());
 			if (can_addref(o)) { retain(o); ++objs[o].raw; if (!ret) { check(); return fail("wrong-return", "addref reported failure although the count can be raised"); } }
 			else {
 				++C.limit; ++C.refused; nontrivial = true;
@@ -379,32 +437,39 @@ struct BufSys : World {
 		case B_UNREFRAW: {
 			int o = s;
 			sig = std::string("buffer.unref|") + (count(o) > 1 ? "shared" : "last");
-			LIB((((mpt::buffer *) objs[o].ptr)->unref(), 0));
+			LIB((bp(o)->unref(), 0));
 			--objs[o].raw; release(o);
 			break; }
 		case B_DETACH: {
 			int o = so[s];
 			bool shared = count(o) > 1;
-			sig = std::string("buffer.detach|") + (shared ? "shared" : "unique") + (t ? ",grow" : ",same-size");
-			if (shared) ++C.shared_op, nontrivial = true;
-			mpt::buffer *b = (mpt::buffer *) objs[o].ptr;
-			mpt::buffer *nb = LIB(b->detach(t ? 300 : 16));
-			if (!nb) { ++C.spurious; break; }
-			if (nb == b) {}   // same instance: no reference moved
-			else if (!shared) {
-				// the only reference moved to a new block: the old block must be gone
-				const void *oldblk = objs[o].block;
-				objs[o].ptr = nb; objs[o].block = find_block(nb);
-				sl[s]._buf = nb;
-				if (ledger_is_live(oldblk)) return fail("leak", "the old block of a moved (unshared) buffer is still allocated");
-			} else {
-				release(o);
-				int n = newobj(nb);
-				sl[s]._buf = nb; so[s] = n;
-			}
+			sig = std::string("buffer.detach|") + (shared ? "shared," : "unique,") + szn[t] + (bp(o)->_used > 64 ? ",large-content" : ",small-content") + (d.c ? ",init-fails" : "");
+			mpt::buffer *b = bp(o);
+			size_t len = t == 0 ? tkes(tk[o]) : (t == 1 ? b->_used : 400);
+			g_init_fail = d.c != 0;
+			mpt::buffer *nb = LIB(b->detach(len));
+			g_init_fail = false;
+			if (!nb) { ++C.refused; if (shared) { ++C.refused_shared; nontrivial = true; } break; }   // refused: nothing may have changed
+			sl[s]._buf = nb;
+			if (!after_write(s, b)) return false;
+			break; }
+		case B_SET: case B_SLICE: case B_INSERT: case B_APPEND: {
+			int o = so[s];
+			bool shared = count(o) > 1;
+			sig = std::string(d.code == B_SET ? "array_set|" : (d.code == B_SLICE ? "array_slice|" : (d.code == B_INSERT ? "array_insert|" : "array_append|")))
+			      + (shared ? "shared" : "unique") + (bp(o)->_used > 64 ? ",large-content" : ",small-content");
+			mpt::buffer *b = sl[s]._buf;
+			size_t es = tkes(tk[o]);
+			void *p;
+			if (d.code == B_SET) p = LIB(mpt::mpt_array_set(A(&sl[s]), tkt(tk[o]), es, data, 0));
+			else if (d.code == B_SLICE) p = LIB(mpt::mpt_array_slice(A(&sl[s]), 0, es));
+			else if (d.code == B_INSERT) p = LIB(mpt::mpt_array_insert(A(&sl[s]), 0, es));
+			else p = LIB(mpt::mpt_array_append(A(&sl[s]), es, data));
+			if (!p) { ++C.refused; if (shared) { ++C.refused_shared; nontrivial = true; } }
+			if (!after_write(s, b)) return false;
 			break; }
 		}
-		if (!check() || !slots_ok()) return false;
+		if (!checkall()) return false;
 		for (size_t o = 0; o < objs.size(); ++o) if (objs[o].dead) { ++C.destroyed; break; }
 		if (nontrivial) ++C.nontrivial;
 		return true;
@@ -421,13 +486,13 @@ struct BufSys : World {
 			dstep = "dropping handle %d"; darg = i;
 			LIB(mpt::mpt_array_clone(A(&sl[i]), 0));
 			release(so[i]); so[i] = -1;
-			if (!check()) return false;
+			if (!checkall()) return false;
 		}
 		for (size_t o = 0; o < objs.size(); ++o) while (!objs[o].dead && objs[o].raw > 0) {
 			dstep = "dropping a raw reference to object #%d"; darg = (int) o;
-			LIB((((mpt::buffer *) objs[o].ptr)->unref(), 0));
+			LIB((bp(o)->unref(), 0));
 			--objs[o].raw; release(o);
-			if (!check()) return false;
+			if (!checkall()) return false;
 		}
 		for (size_t o = 0; o < objs.size(); ++o) if (!objs[o].dead) { return fail("leak", oname(o) + " has model references left after the drain (harness bookkeeping)"); }
 		++C.drained;
@@ -1011,12 +1076,18 @@ static bool configure(const std::string &job, Tier tier)
 	cfg.conv = cfg.cxx = cfg.traits = cfg.clone = true; cfg.reply = cfg.refbuf = cfg.genconv = false;
 	std::vector<OpDef> &o = cfg.ops;
 	int S = cfg.nslots;
-	if (job == "buffer") {
-		cfg.depth = tier == Quick ? 6 : 40;
-		add_ops(o, B_NEW, S, 0); add_ops(o, B_NEWHI, S, 0);
+	if (job == "buffer" || job == "buffer:typed") {
+		bool typed = job != "buffer";
+		cfg.depth = tier == Quick ? 5 : 40;
+		// new: b = 2*kind + large, c = counter preset MAX-1
+		if (!typed) { for (int v : {0, 1}) { add_ops(o, B_NEW, S, 0, 0); for (size_t i = o.size() - S; i < o.size(); ++i) o[i].b = v; add_ops(o, B_NEW, S, 0, 1); for (size_t i = o.size() - S; i < o.size(); ++i) o[i].b = v; } }
+		else for (int v : {2, 3, 4, 0}) { add_ops(o, B_NEW, S, 0, 0); for (size_t i = o.size() - S; i < o.size(); ++i) o[i].b = v; }
 		add_ops(o, B_CLONE, S, S); add_ops(o, B_CLEAR, S, 0); add_ops(o, B_CXXASSIGN, S, S);
 		add_ops(o, B_TINIT, S, S); add_ops(o, B_TFINI, S, 0);
-		add_ops(o, B_ADDREF, S, 0); add_ops(o, B_UNREFRAW, 3, 0); add_ops(o, B_DETACH, S, 2);
+		add_ops(o, B_ADDREF, S, 0); add_ops(o, B_UNREFRAW, 3, 0);
+		add_ops(o, B_DETACH, S, 3, 0); if (typed) add_ops(o, B_DETACH, S, 3, 1);
+		if (typed) add_ops(o, B_SET, S, 0);
+		add_ops(o, B_SLICE, S, 0); add_ops(o, B_INSERT, S, 0); add_ops(o, B_APPEND, S, 0);
 		return true;
 	}
 	if (job.compare(0, 5, "meta:")) return false;
@@ -1049,8 +1120,10 @@ static bool configure(const std::string &job, Tier tier)
 
 void mc_jobs(Tier t, std::vector<std::string> &jobs)
 {
+	if (getenv("C15_ONLY")) { jobs.push_back(getenv("C15_ONLY")); return; }   // DEV-ONLY
 	jobs.push_back("refcount");
 	jobs.push_back("buffer");
+	jobs.push_back("buffer:typed");
 	for (const char *k : {"counting", "geninfo", "metabuffer", "rawdata", "iobuffer", "generic", "cxxtype", "stream", "reply", "refarray", "mixed"}) jobs.push_back(std::string("meta:") + k);
 }
 
@@ -1058,7 +1131,7 @@ static void flush_counters(Run &r)
 {
 	r.count("nontrivial", C.nontrivial); r.count("refused", C.refused); r.count("at_counter_limit", C.limit); r.count("held_reference_replaced", C.replaced);
 	r.count("op_on_shared_object", C.shared_op); r.count("transitions_with_destroyed_object", C.destroyed); r.count("clone_of_nonclonable", C.nonclonable);
-	r.count("cxx_assign_unretainable_clears_target(not flagged)", C.cleared); r.count("spurious_refusals(not flagged)", C.spurious); r.count("states_drained_to_quiescence", C.drained);
+	r.count("cxx_assign_unretainable_clears_target(not flagged)", C.cleared); r.count("spurious_refusals(not flagged)", C.spurious); r.count("states_drained_to_quiescence", C.drained); r.count("refused_write_on_shared_buffer", C.refused_shared); r.count("clone_between_different_content_traits", C.traits_mismatch);
 	r.count("alloc_dealloc_mismatch_reports(out of scope, not flagged)", g_mismatch);
 }
 
@@ -1074,7 +1147,7 @@ void mc_explore(Run &r, const std::string &job)
 	}
 	if (!configure(job, r.tier)) { r.incomplete("unknown job " + job); return; }
 	for (const char *k : {"held_reference_replaced", "at_counter_limit", "refused", "transitions_with_destroyed_object", "states_drained_to_quiescence", "op_on_shared_object", "clone_of_nonclonable"}) r.require(k);
-	if (job == "buffer") explore<BufSys>(r, cfg.depth); else explore<MetaSys>(r, cfg.depth);
+	if (job.compare(0, 6, "buffer") == 0) { r.require("refused_write_on_shared_buffer"); if (job != "buffer") r.require("clone_between_different_content_traits"); explore<BufSys>(r, cfg.depth); } else explore<MetaSys>(r, cfg.depth);
 	flush_counters(r);
 }
 
@@ -1082,5 +1155,5 @@ void mc_replay(Run &r, const std::string &job, const Vec &v)
 {
 	if (job == "refcount") { int depth = rc_depth(r.tier); dfs_replay(r, [&](Ctx &x) { refcount_body(r, x, depth); }, v); return; }
 	if (!configure(job, r.tier)) return;
-	if (job == "buffer") replay<BufSys>(r, v); else replay<MetaSys>(r, v);
+	if (job.compare(0, 6, "buffer") == 0) replay<BufSys>(r, v); else replay<MetaSys>(r, v);
 }
